@@ -80,8 +80,14 @@ def var(name, ty):
     return X('var', ty, name)
 
 
+def _quot(a, b):
+    """truncation toward zero (Coq Z.quot; Python int() of an exact quotient)"""
+    q = abs(a) // abs(b)
+    return q if (a < 0) == (b < 0) else -q
+
+
 _ARITH = {'add': lambda a, b: a + b, 'sub': lambda a, b: a - b, 'mul': lambda a, b: a * b,
-          'div': lambda a, b: a // b, 'mod': lambda a, b: a % b, 'max': max, 'min': min}
+          'div': lambda a, b: a // b, 'mod': lambda a, b: a % b, 'max': max, 'min': min, 'quot': _quot}
 _CMP = {'le': lambda a, b: a <= b, 'lt': lambda a, b: a < b, 'ge': lambda a, b: a >= b,
         'gt': lambda a, b: a > b, 'eq': lambda a, b: a == b, 'ne': lambda a, b: a != b}
 
@@ -91,11 +97,26 @@ def _need(x, ty, what):
         raise _Unsup(f'{what}: operand is not {"an integer" if ty == "Z" else "a boolean"} ({describe(x)})')
 
 
+_POSVARS = set()        # names of the inputs the spec declares positive (for the current translation)
+
+
+def _is_pos(x):
+    """an expression that is positive by construction: a positive literal, an input declared positive, products"""
+    if x.op == 'int':
+        return x.a[0] > 0
+    if x.op == 'var':
+        return x.a[0] in _POSVARS
+    if x.op == 'mul':
+        return _is_pos(x.a[0]) and _is_pos(x.a[1])
+    return False
+
+
 def arith(op, a, b):
     _need(a, 'Z', op)
     _need(b, 'Z', op)
-    if op in ('div', 'mod') and not (b.op == 'int' and b.a[0] != 0):
-        raise _Unsup('divisor of // or % is not a non-zero integer literal (ZeroDivisionError is not modelled)')
+    if op in ('div', 'mod', 'quot') and not ((b.op == 'int' and b.a[0] != 0) or _is_pos(b)):
+        raise _Unsup('divisor of // or % is neither a non-zero integer literal nor an input the spec declares '
+                     'positive (ZeroDivisionError is not modelled)')
     if a.op == 'int' and b.op == 'int':
         return zint(_ARITH[op](a.a[0], b.a[0]))
     return X(op, 'Z', a, b)
@@ -145,6 +166,77 @@ def ite(c, a, b):
     if a is b:
         return a
     return X('ite', a.ty, c, a, b)
+
+
+class Frac:
+    """an exact rational num/den with a positive denominator (a literal, an input declared positive, or a product
+    of those): the value of a true division of integers.  Python computes these in floating point; the
+    translation is exact, which agrees with the floats as long as every intermediate value is an integer or a
+    dyadic fraction below 2^53 (stated in the generated header; larger magnitudes are not modelled)."""
+
+    def __init__(self, num, den):
+        self.num, self.den = num, den
+
+
+def _as_frac(v, what):
+    if isinstance(v, Frac):
+        return v
+    _need(v, 'Z', what)
+    return Frac(v, zint(1))
+
+
+def _mk_frac(num, den):
+    return Frac(num, den)
+
+
+def s_arith(op, a, b):
+    """arithmetic on integers and exact rationals"""
+    if isinstance(a, X) and isinstance(b, X) and op != 'tdiv':
+        return arith(op, a, b)
+    if not isinstance(a, (X, Frac)) or not isinstance(b, (X, Frac)):
+        raise _Unsup(f'operator {op} on {describe(a)} and {describe(b)}')
+    if op == 'tdiv':
+        if isinstance(b, Frac):
+            raise _Unsup('division by a rational')
+        _need(b, 'Z', '/')
+        fa = _as_frac(a, '/')
+        if b.op == 'int' and b.a[0] < 0:
+            return Frac(neg(fa.num), arith('mul', fa.den, zint(-b.a[0])))
+        if not _is_pos(b):
+            raise _Unsup('divisor of / is neither a non-zero literal nor an input the spec declares positive')
+        return Frac(fa.num, b if (fa.den.op == 'int' and fa.den.a[0] == 1) else arith('mul', fa.den, b))
+    fa, fb = _as_frac(a, op), _as_frac(b, op)
+    same = _key(fa.den) == _key(fb.den)
+    if op in ('add', 'sub'):
+        if same:
+            return Frac(arith(op, fa.num, fb.num), fa.den)
+        return Frac(arith(op, _mul1(fa.num, fb.den), _mul1(fb.num, fa.den)), _mul1(fa.den, fb.den))
+    if op == 'mul':
+        return Frac(arith('mul', fa.num, fb.num), _mul1(fa.den, fb.den))
+    raise _Unsup(f'operator {op} on a rational (only + - * / are exact)')
+
+
+def _mul1(a, b):
+    if b.op == 'int' and b.a[0] == 1:
+        return a
+    if a.op == 'int' and a.a[0] == 1:
+        return b
+    return arith('mul', a, b)
+
+
+def _key(x):
+    return (x.op, x.ty) + tuple(_key(y) if isinstance(y, X) else y for y in x.a)
+
+
+def s_neg(a):
+    return Frac(neg(a.num), a.den) if isinstance(a, Frac) else neg(a)
+
+
+def s_cmp(op, a, b):
+    if isinstance(a, X) and isinstance(b, X):
+        return cmp_(op, a, b)
+    fa, fb = _as_frac(a, 'comparison'), _as_frac(b, 'comparison')
+    return cmp_(op, _mul1(fa.num, fb.den), _mul1(fb.num, fa.den))       # denominators are positive
 
 
 def free_vars(x, acc=None):
@@ -232,10 +324,17 @@ def describe(v):
         return 'untranslatable value: ' + v.why
     if isinstance(v, PyTuple):
         return f'{v.kind} of {len(v.items)}'
+    if isinstance(v, Frac):
+        return 'rational (result of a true division)'
     return type(v).__name__ if not isinstance(v, _Const) else v.n
 
 
+_IGNORE_POISON = False
+
+
 def is_poisoned(v):
+    if _IGNORE_POISON:
+        return False
     return getattr(v, 'poisoned', False) or any(is_poisoned(p) for p in getattr(v, 'parents', ()))
 
 
@@ -272,6 +371,17 @@ def find_opaque(v):
     return None
 
 
+def lift_choice(v):
+    """a tuple with a component that is a choice between shapes -> the choice between the two tuples"""
+    if isinstance(v, PyTuple):
+        for i, it in enumerate(v.items):
+            it = lift_choice(it)
+            if isinstance(it, Choice):
+                return Choice(it.c, lift_choice(PyTuple(v.items[:i] + [it.t] + v.items[i + 1:], v.kind)),
+                              lift_choice(PyTuple(v.items[:i] + [it.f] + v.items[i + 1:], v.kind)))
+    return v
+
+
 def merge_values(c, vt, vf):
     if vt is vf:
         return vt
@@ -279,6 +389,8 @@ def merge_values(c, vt, vf):
         return vt if isinstance(vt, Opaque) else vf
     if isinstance(vt, X) and isinstance(vf, X) and vt.ty == vf.ty:
         return ite(c, vt, vf)
+    if isinstance(vt, Frac) and isinstance(vf, Frac) and _key(vt.den) == _key(vf.den):
+        return Frac(ite(c, vt.num, vf.num), vt.den)
     if (isinstance(vt, PyTuple) and isinstance(vf, PyTuple) and vt.kind == vf.kind
             and len(vt.items) == len(vf.items)):
         return PyTuple([merge_values(c, a, b) for a, b in zip(vt.items, vf.items)], vt.kind)
@@ -302,6 +414,14 @@ SLICEBOX_K = ('SLICEBOX',)
 
 def SEQ(n):
     return ('SEQ', n)
+
+
+def VEC(n):
+    return ('VEC', n)
+
+
+Z_K = ('Z',)
+Z_POS = ('Z', 'pos')           # an integer input the instance assumes positive (a divisor)
 
 
 def ARR(ndim):
@@ -404,7 +524,7 @@ def _is_docstring(s):
 def _has_exit(stmts):
     for s in stmts:
         for n in ast.walk(s):
-            if isinstance(n, (ast.Return, ast.Raise, ast.Break, ast.Continue, ast.Yield, ast.YieldFrom)):
+            if isinstance(n, (ast.Return, ast.Raise, ast.Break, ast.Continue, ast.Yield, ast.YieldFrom, ast.Assert)):
                 return True
     return False
 
@@ -421,6 +541,70 @@ def _loaded_names(s):
     return {n.id for n in ast.walk(s) if isinstance(n, ast.Name)}
 
 
+def _base_name(e):
+    while isinstance(e, (ast.Attribute, ast.Subscript, ast.Starred)):
+        e = e.value
+    return e.id if isinstance(e, ast.Name) else None
+
+
+def _direct_refs(e, env):
+    """names whose OBJECT (or a view of it) the expression can evaluate to: these are what a callee receiving the
+    value could mutate.  Arithmetic, comparisons and literals create new objects."""
+    if isinstance(e, ast.Name):
+        return {e.id}
+    if isinstance(e, (ast.Attribute, ast.Subscript)):
+        b = _base_name(e)
+        if b is None:
+            return _direct_refs(e.value, env)
+        v = env.get(b)
+        if isinstance(v, Obj) and isinstance(e, ast.Attribute) and isinstance(e.value, ast.Name):
+            a = v.attrs.get(e.attr)
+            # an attribute of an abstract object: only a declared mutable integer attribute exposes it
+            return {b} if isinstance(a, (Seq, Vec)) else set()
+        return {b}
+    if isinstance(e, ast.Starred):
+        return _direct_refs(e.value, env)
+    if isinstance(e, (ast.Tuple, ast.List, ast.Set)):
+        return set().union(*[_direct_refs(x, env) for x in e.elts]) if e.elts else set()
+    if isinstance(e, ast.Dict):
+        return set().union(*[_direct_refs(x, env) for x in e.values if x is not None]) if e.values else set()
+    if isinstance(e, ast.IfExp):
+        return _direct_refs(e.body, env) | _direct_refs(e.orelse, env)
+    if isinstance(e, ast.BoolOp):
+        return set().union(*[_direct_refs(x, env) for x in e.values])
+    if isinstance(e, ast.Call):
+        out = set()
+        if isinstance(e.func, ast.Attribute):
+            out |= _direct_refs(e.func.value, env)        # the receiver (the result may alias it)
+        for a in e.args:
+            out |= _direct_refs(a, env)
+        for k in e.keywords:
+            out |= _direct_refs(k.value, env)
+        return out
+    if isinstance(e, (ast.BinOp, ast.UnaryOp, ast.Compare, ast.Constant, ast.JoinedStr, ast.FormattedValue,
+                      ast.Slice)):
+        return set()
+    return {m.id for m in ast.walk(e) if isinstance(m, ast.Name)}          # anything else: be conservative
+
+
+def _mutation_suspects(s, env):
+    """the names whose (mutable) values an untranslated statement could change: the receiver and the directly
+    passed arguments of every call, the base of a subscript/attribute store target, the target of an augmented
+    assignment.  Operators, subscript and attribute READS on integers / numpy arrays do not mutate."""
+    out = set()
+    for n in ast.walk(s):
+        if isinstance(n, ast.Call):
+            out |= _direct_refs(n, env)
+        elif isinstance(n, (ast.Subscript, ast.Attribute)) and isinstance(n.ctx, (ast.Store, ast.Del)):
+            b = _base_name(n)
+            out |= {b} if b else {m.id for m in ast.walk(n) if isinstance(m, ast.Name)}
+        elif isinstance(n, ast.AugAssign):
+            b = _base_name(n.target)
+            if b:
+                out.add(b)
+    return out
+
+
 class Exec:
     def __init__(self, spec, fdefs, namer):
         self.spec, self.fdefs, self.namer = spec, fdefs, namer
@@ -429,6 +613,13 @@ class Exec:
         self.depth = 0
         self.returns = []          # Return nodes of the translated region, textual order
         self.atoms = {}            # unparse(call) -> value
+        self.call_obs = {}         # label -> values of the arguments of the observed calls
+        self.assumed = {}          # local name -> input value (spec['assume'])
+        self.assumed_at_loop = {}  # local name -> input value, rebound when the focused loop is entered
+        self.arr_atoms = {}        # (callee, array parameter) -> value  (spec['arr_calls'])
+        self.arr_sigs = {}         # (callee, array parameter) -> signature of the remaining arguments
+        self.modstack = [('', fdefs)]   # (module prefix, function definitions) of the code being executed
+        self.loader = None         # file -> function definitions (for spec['modules'])
 
     # ------------------------------------------------------------ binding
     def letbind(self, name, v):
@@ -447,6 +638,8 @@ class Exec:
             return v
         if isinstance(v, Slice):
             return Slice(self.letbind(name + '_start', v.start), self.letbind(name + '_stop', v.stop))
+        if isinstance(v, Frac):
+            return Frac(self.letbind(name + '_num', v.num), v.den)
         return v
 
     # ------------------------------------------------------------ expressions
@@ -501,19 +694,26 @@ class Exec:
 
     def ev_BinOp(self, node, env):
         op = _BINOPS.get(type(node.op))
-        if op is None:
-            if isinstance(node.op, ast.Div):
+        if isinstance(node.op, ast.Div):
+            if not self.spec.get('rationals'):
                 raise _Unsup('true division / (floating point) is not integer arithmetic')
+            op = 'tdiv'
+        if isinstance(node.op, ast.BitAnd):
+            a, b = self.ev(node.left, env), self.ev(node.right, env)
+            if isinstance(b, X) and b.op == 'int' and b.a[0] == 1:
+                return arith('mod', a, zint(2))           # parity, also for negative integers
+            if isinstance(a, X) and a.op == 'int' and a.a[0] == 1:
+                return arith('mod', b, zint(2))
+            raise _Unsup('bitwise & with something other than the literal 1')
+        if op is None:
             raise _Unsup('binary operator ' + type(node.op).__name__)
         a, b = self.ev(node.left, env), self.ev(node.right, env)
         if isinstance(a, Vec) or isinstance(b, Vec):
             for v in (a, b):
-                if not isinstance(v, (Vec, X)):
+                if not isinstance(v, (Vec, X, Frac)):
                     raise _Unsup(f'arithmetic between a numpy vector and a {describe(v)}')
-            return self._elementwise(lambda x, y: arith(op, x, y), a, b)
-        if isinstance(a, X) and isinstance(b, X):
-            return arith(op, a, b)
-        raise _Unsup(f'operator {op} on {describe(a)} and {describe(b)}')
+            return self._elementwise(lambda x, y: s_arith(op, x, y), a, b)
+        return s_arith(op, a, b)
 
     def ev_UnaryOp(self, node, env):
         a = self.ev(node.operand, env)
@@ -521,8 +721,8 @@ class Exec:
             if isinstance(a, Vec):
                 if is_poisoned(a):
                     raise _Unsup('array that an untranslated statement may have changed')
-                return Vec([neg(x) for x in a.items])
-            return neg(a)
+                return Vec([s_neg(x) for x in a.items])
+            return s_neg(a)
         if isinstance(node.op, ast.UAdd):
             _need(a, 'Z', 'unary +')
             return a
@@ -584,14 +784,20 @@ class Exec:
                     r = bnot(r)
             elif isinstance(a, Vec) or isinstance(b, Vec):
                 cop = _CMPOPS.get(type(op))
+                if cop is None:
+                    raise _Unsup('comparison operator ' + type(op).__name__ + ' on a numpy vector')
+                # numpy converts a tuple/list operand of the same length to an array
+                a, b = [Vec(self._ints(v, 'comparison')) if isinstance(v, PyTuple) and v.items else v for v in (a, b)]
+                if isinstance(a, Vec) and isinstance(b, Vec) and len(a.items) != len(b.items):
+                    raise _Unsup('comparison of vectors of different lengths')
                 for v in (a, b):
-                    if not isinstance(v, (Vec, X)):
+                    if not isinstance(v, (Vec, X, Frac)):
                         raise _Unsup('comparison of a numpy vector with a ' + describe(v))
-                r = self._elementwise(lambda x, y: cmp_(cop, x, y), a, b)
+                r = self._elementwise(lambda x, y: s_cmp(cop, x, y), a, b)
                 if len(node.ops) > 1:
                     raise _Unsup('chained comparison of numpy vectors')
                 return r
-            elif isinstance(op, (ast.Eq, ast.NotEq)) and not (isinstance(a, X) and isinstance(b, X)):
+            elif isinstance(op, (ast.Eq, ast.NotEq)) and not (isinstance(a, (X, Frac)) and isinstance(b, (X, Frac))):
                 r = self.struct_eq(a, b)
                 if isinstance(op, ast.NotEq):
                     r = bnot(r)
@@ -599,7 +805,7 @@ class Exec:
                 cop = _CMPOPS.get(type(op))
                 if cop is None:
                     raise _Unsup('comparison operator ' + type(op).__name__)
-                r = cmp_(cop, a, b)
+                r = s_cmp(cop, a, b)
             out = r if out is None else band(out, r)
         return out
 
@@ -668,10 +874,23 @@ class Exec:
             return list(v.items)
         raise _Unsup(f'{what}: argument is a {describe(v)}')
 
+    def resolve(self, d):
+        """the definition of an inlinable function named d in the code being executed, or None"""
+        inl = self.spec.get('inline', ())
+        prefix, fdefs = self.modstack[-1]
+        if '.' not in d:
+            q = d if not prefix else prefix + '.' + d
+            return ((prefix, fdefs), fdefs[d]) if (d in fdefs and q in inl) else None
+        for mp, mfile in self.spec.get('modules', {}).items():
+            if d.startswith(mp + '.') and '.' not in d[len(mp) + 1:] and d in inl and self.loader:
+                mf = self.loader(mfile)
+                f = d[len(mp) + 1:]
+                if f in mf:
+                    return (mp, mf), mf[f]
+        return None
+
     def ev_Call(self, node, env):
-        if node.keywords:
-            raise _Unsup('call with keyword arguments')
-        if any(isinstance(a, ast.Starred) for a in node.args):
+        if any(isinstance(a, ast.Starred) for a in node.args) or any(k.arg is None for k in node.keywords):
             raise _Unsup('call with a starred argument')
         d = _dotted(node.func)
         if d is None:
@@ -679,6 +898,15 @@ class Exec:
         head = d.split('.')[0]
         if head in env:
             raise _Unsup(f'call of {d}: the name {head!r} is a local value here')
+        target = self.resolve(d)
+        if target is not None:
+            args = [self.ev(a, env) for a in node.args]
+            kw = {k.arg: self.ev(k.value, env) for k in node.keywords}
+            return self.inline_split(d, target, args, kw)
+        if node.keywords:
+            raise _Unsup('call with keyword arguments')
+        if d in self.spec.get('arr_calls', {}):
+            return self.arr_call(d, node, env)
         key = ast.unparse(node)
         calls = self.spec.get('calls', {})
         if key in calls:
@@ -691,8 +919,21 @@ class Exec:
         args = [self.ev(a, env) for a in node.args]
         n = len(args)
         if d == 'int' and n == 1:
+            if isinstance(args[0], Frac):
+                return arith('quot', args[0].num, args[0].den)        # truncation toward zero
             _need(args[0], 'Z', 'int()')
             return args[0]
+        if d == 'round' and n == 1:
+            _need(args[0], 'Z', 'round()')                  # round of an integer is the integer
+            return args[0]
+        if d in ('np.floor', 'numpy.floor', 'math.floor', 'np.ceil', 'numpy.ceil', 'math.ceil') and n == 1:
+            v = args[0]                                     # (the float result is an integer: kept as an integer)
+            if isinstance(v, Frac):
+                if d.endswith('floor'):
+                    return arith('div', v.num, v.den)
+                return neg(arith('div', neg(v.num), v.den))
+            _need(v, 'Z', d)
+            return v
         if d in ('max', 'min', 'np.max', 'np.min', 'numpy.max', 'numpy.min'):
             op = d.split('.')[-1]
             if n == 1:
@@ -754,9 +995,59 @@ class Exec:
             return functools.reduce(band, [cmp_('eq', x, y) for x, y in zip(a, b)], bconst(True))
         if d in ('np.append', 'numpy.append') and n == 2:
             return Vec(self._flat_ints(args[0], d) + self._flat_ints(args[1], d))
-        if d in self.fdefs and d in self.spec.get('inline', ()):
-            return self.inline(d, args)
+        if d in ('np.broadcast_to', 'numpy.broadcast_to') and n == 2:
+            sh = args[1]
+            if not (isinstance(sh, PyTuple) and len(sh.items) == 1 and isinstance(sh.items[0], X)
+                    and sh.items[0].op == 'int' and sh.items[0].a[0] >= 1):
+                raise _Unsup('np.broadcast_to with a shape that is not a literal (n,)')
+            k = sh.items[0].a[0]
+            v = args[0]
+            if isinstance(v, X):
+                _need(v, 'Z', d)
+                return Vec([v] * k)
+            items = self._ints(v, d)
+            if len(items) == k:
+                return Vec(items, parents=[v] if isinstance(v, Vec) else ())      # a read-only view
+            if len(items) == 1:
+                return Vec(items * k, parents=[v] if isinstance(v, Vec) else ())
+            raise _Unsup(f'np.broadcast_to of {len(items)} items to ({k},) (ValueError)')
         raise _Unsup(f'call of {d} (not in the whitelist)')
+
+    def arr_call(self, d, node, env):
+        """a call f(array parameter, ...) the spec takes as an input: one atom per (f, array parameter); the other
+        arguments must be the same literal integers / untouched opaque parameters at every such call"""
+        args = [self.ev(a, env) for a in node.args]
+        tab = self.spec['arr_calls'][d]
+        if not args or not isinstance(args[0], Arr) or args[0].name not in tab:
+            raise _Unsup(f'{d}: first argument is not one of the array parameters {sorted(tab)}')
+        if is_poisoned(args[0]):
+            raise _Unsup(f'{d}: {args[0].name} may have been changed by an untranslated statement')
+        sig = []
+        for v in args[1:]:
+            if isinstance(v, X) and v.op == 'int':
+                sig.append(('int', v.a[0]))
+            elif isinstance(v, Opaque):
+                sig.append(('opaque', id(v)))
+            else:
+                raise _Unsup(f'{d}: an argument after the array is neither a literal nor an untouched parameter')
+        key = (d, args[0].name)
+        if self.arr_sigs.setdefault(key, sig) != sig:
+            raise _Unsup(f'{d}: called with different arguments at different places')
+        return self.arr_atoms[key]
+
+    def inline_split(self, d, target, args, kw):
+        """inline a call; an argument that is a choice between values of different shapes is split"""
+        for i, v in enumerate(args):
+            if isinstance(v, Choice):
+                t = self.inline_split(d, target, args[:i] + [v.t] + args[i + 1:], kw)
+                f = self.inline_split(d, target, args[:i] + [v.f] + args[i + 1:], kw)
+                return merge_values(v.c, t, f)
+        for k, v in kw.items():
+            if isinstance(v, Choice):
+                t = self.inline_split(d, target, args, dict(kw, **{k: v.t}))
+                f = self.inline_split(d, target, args, dict(kw, **{k: v.f}))
+                return merge_values(v.c, t, f)
+        return self.inline(d, target, args, kw)
 
     def _flat_ints(self, v, what):
         if isinstance(v, X):
@@ -764,8 +1055,8 @@ class Exec:
             return [v]
         return self._ints(v, what)
 
-    def inline(self, fname, args):
-        fd = self.fdefs[fname]
+    def inline(self, fname, target, args, kw):
+        mod, fd = target
         if self.depth > 4:
             raise _Unsup('call depth')
         a = fd.args
@@ -775,6 +1066,10 @@ class Exec:
         if len(args) > len(names):
             raise _Unsup(f'too many arguments for {fname}')
         env = dict(zip(names, args))
+        for k, v in kw.items():
+            if k not in names or k in env:
+                raise _Unsup(f'unexpected or repeated keyword argument {k} of {fname}')
+            env[k] = v
         ndef = len(a.defaults)
         for i, nm in enumerate(names):
             if nm not in env:
@@ -786,32 +1081,70 @@ class Exec:
         if not body or not isinstance(body[-1], ast.Return) or body[-1].value is None or _has_exit(body[:-1]):
             raise _Unsup(f'{fname} is not straight-line code ending in a single return (cannot be inlined)')
         self.depth += 1
+        self.modstack.append(mod)
         try:
             for s in body[:-1]:
                 self.stmt(s, env)
             v = self.ev(body[-1].value, env)
         finally:
             self.depth -= 1
+            self.modstack.pop()
         r = find_opaque(v)
         if r:
             raise _Unsup(f'result of {fname} depends on: {r}')
         return v
 
     # ------------------------------------------------------------ statements without exits
+    def record_calls(self, s, env):
+        """spec['observe_calls'] = {label: 'np.tile' | '.reshape'}: the integer arguments of the matching calls inside
+        untranslated statements, in execution order, become observable as <label>_0, <label>_1, ..."""
+        pats = self.spec.get('observe_calls')
+        if not pats or self.depth:
+            return
+        calls = [n for n in ast.walk(s) if isinstance(n, ast.Call)]
+        calls.sort(key=lambda n: (n.lineno, n.col_offset))
+        for n in calls:
+            d = _dotted(n.func)
+            for label, pat in pats.items():
+                hit = (d == pat) or (pat.startswith('.') and isinstance(n.func, ast.Attribute)
+                                      and n.func.attr == pat[1:])
+                if not hit:
+                    continue
+                if self.binds is None:
+                    v = Opaque(f'the call of {pat} at line {n.lineno} is inside a branch')
+                else:
+                    try:
+                        if n.keywords:
+                            raise _Unsup('keyword arguments')
+                        v = PyTuple([self.ev(a, env) for a in n.args])
+                    except _Unsup as e:
+                        v = Opaque(f'arguments of {pat} at line {n.lineno}: {e}')
+                self.call_obs.setdefault(label, []).append(v)
+
     def opaque_stmt(self, s, env, why):
-        for nm in _loaded_names(s):
+        self.record_calls(s, env)
+        for nm in _mutation_suspects(s, env):
             if nm in env:
                 poison(env[nm])
+        assume = self.assumed if self.depth == 0 else {}
+        plain = isinstance(s, ast.Assign) and len(s.targets) == 1 and (
+            isinstance(s.targets[0], ast.Name) or (isinstance(s.targets[0], ast.Tuple) and all(
+                isinstance(t, ast.Name) for t in s.targets[0].elts)))
         for nm in _stored_names(s):
-            env[nm] = Opaque(f'{nm} is bound by an untranslated statement (line {s.lineno}: {why})')
+            if nm in assume and plain:
+                env[nm] = assume[nm]          # the spec takes the value of this local as an argument
+            else:
+                env[nm] = Opaque(f'{nm} is bound by an untranslated statement (line {s.lineno}: {why})')
 
     _OPAQUE_OK = (ast.Assign, ast.AugAssign, ast.AnnAssign, ast.Expr, ast.Pass)
 
-    def check_opaque_ok(self, s):
+    def check_opaque_ok(self, s, loops=False):
         """statements that may be skipped as opaque: they can only (re)bind names or mutate objects"""
-        if isinstance(s, ast.If):
+        if isinstance(s, ast.If) or (loops and isinstance(s, ast.For)):
             for t in s.body + s.orelse:
-                self.check_opaque_ok(t)
+                self.check_opaque_ok(t, loops)
+            return
+        if loops and isinstance(s, (ast.Break, ast.Continue)):
             return
         if not isinstance(s, self._OPAQUE_OK):
             raise TranslationRefused(self.spec['name'], f'line {s.lineno}: statement {type(s).__name__} '
@@ -879,6 +1212,8 @@ class Exec:
     def cond(self, test, env):
         try:
             c = self.ev(test, env)
+            if isinstance(c, X) and c.ty == 'Z':
+                c = cmp_('ne', c, zint(0))                 # truthiness of an integer
             if not (isinstance(c, X) and c.ty == 'B'):
                 raise _Unsup('condition is a ' + describe(c) + ' (truthiness is not translated)')
             return c
@@ -918,16 +1253,32 @@ class Exec:
             else:
                 env[nm] = self.letbind(nm, merge_values(c, vt, vf))
 
+    def opaque_loop(self, s, env):
+        """a loop that is not over a list parameter: skipped as one opaque statement when it can only rebind names
+        and mutate objects (no return/raise inside, only assignments/calls/ifs); everything it binds is unknown
+        afterwards, everything it may mutate is poisoned"""
+        name = self.spec['name']
+        for t in s.body + s.orelse:
+            for n in ast.walk(t):
+                if isinstance(n, (ast.Return, ast.Raise, ast.Yield, ast.YieldFrom, ast.Assert)):
+                    raise TranslationRefused(name, f'line {n.lineno}: return/raise/assert inside a loop the '
+                                                   'translator does not translate')
+            self.check_opaque_ok(t, loops=True)
+        self.opaque_stmt(s, env, 'loop that is not over a list parameter')
+
     def stmt_for(self, s, env):
         name = self.spec['name']
+        lst0 = env.get(s.iter.id) if isinstance(s.iter, ast.Name) else None
+        if not isinstance(lst0, ListOf):
+            return self.opaque_loop(s, env)
         if self.binds is None or self.depth:
             raise TranslationRefused(name, f'line {s.lineno}: loop inside a branch or an inlined call')
-        if s.orelse or _has_exit(s.body) or not isinstance(s.target, ast.Name) or not isinstance(s.iter, ast.Name):
+        lst = env.get(s.iter.id) if isinstance(s.iter, ast.Name) else None
+        if not isinstance(lst, ListOf):
+            return self.opaque_loop(s, env)
+        if s.orelse or _has_exit(s.body) or not isinstance(s.target, ast.Name):
             raise TranslationRefused(name, f'line {s.lineno}: loop is not `for x in <parameter>:` over '
                                            'straight-line code')
-        lst = env.get(s.iter.id)
-        if not isinstance(lst, ListOf):
-            raise TranslationRefused(name, f'line {s.lineno}: loop over something that is not a list parameter')
         if lst.poisoned:
             raise TranslationRefused(name, f'line {s.lineno}: the list may have been changed by an untranslated '
                                            'statement before the loop')
@@ -1004,16 +1355,29 @@ class Exec:
         r = find_opaque(v)
         if r:
             raise TranslationRefused(self.spec['name'], f'{where} depends on: {r}')
+        v = lift_choice(v)
         if isinstance(v, Choice):
             return ('ite', v.c, self.leaf_value(v.t, where), self.leaf_value(v.f, where))
         return ('ret', v)
 
     def observe(self, env, where):
+        """the observed expression over the named locals.  A numpy vector is observed AS IT WAS ASSIGNED: a later
+        in-place change by an untranslated call is tracked for every use in translated code (poison) but not
+        for the observation itself, which is a statement about the values the locals were bound to."""
+        global _IGNORE_POISON
+        _IGNORE_POISON = True
+        if self.call_obs:
+            env = dict(env)
+            for label, vals in self.call_obs.items():
+                for i, v in enumerate(vals):
+                    env[f'{label}_{i}'] = v
         try:
             v = self.ev(self.spec['observe_ast'], env)
+            return self.leaf_value(v, where)
         except _Unsup as e:
             raise TranslationRefused(self.spec['name'], f'{where}: observed expression: {e}')
-        return self.leaf_value(v, where)
+        finally:
+            _IGNORE_POISON = False
 
     def do_return(self, s, env):
         where = f'line {s.lineno}: returned value'
@@ -1034,7 +1398,36 @@ class Exec:
             return ('none',)
         return self.observe(env, f'line {s.lineno}: observation at return')
 
-    def block(self, stmts, env, end):
+    def loop_focus(self, s, env):
+        """the spec observes the integers at (mode 'before') or inside (mode 'body': one generic iteration of)
+        the loop `for <target> in <iter>:`; what follows the loop is not translated"""
+        name, lf = self.spec['name'], self.spec['loop_focus']
+        if lf['mode'] == 'before':
+            return self.observe(env, f'line {s.lineno}: observation when the loop is reached')
+        if s.orelse or _has_exit(s.body) or not isinstance(s.target, ast.Name):
+            raise TranslationRefused(name, f'line {s.lineno}: the focused loop has an else block, a return/raise/'
+                                           'break/continue, or a structured target')
+        for nm, v in self.assumed_at_loop.items():
+            env[nm] = v
+        env2 = dict(env)
+        for t in s.body:
+            for nm in _stored_names(t):
+                if nm not in self.assumed:
+                    env2[nm] = Opaque(f'{nm} may hold the value of a previous iteration of the loop')
+        env2[s.target.id] = Opaque('the loop variable is not an integer')
+
+        def end(env_):
+            return self.observe(env_, 'end of the loop body')
+        # a first pass finds the loop-invariant mutable values the body may change (they stay poisoned, so the
+        # real pass treats them as unknown from the START of the iteration)
+        used = set(self.namer.used)
+        snap = {k: list(v) for k, v in self.call_obs.items()}
+        self.block(list(s.body), dict(env2), end, tail=True)
+        self.namer.used = used
+        self.call_obs = snap
+        return self.block(list(s.body), dict(env2), end, tail=True)
+
+    def block(self, stmts, env, end, tail=False):
         saved = self.binds
         self.binds = binds = []
         try:
@@ -1047,6 +1440,41 @@ class Exec:
                     return self.wrap(binds, self.do_return(s, env))
                 if isinstance(s, ast.Raise):
                     return self.wrap(binds, ('raise', self.exc_name(s)))
+                if isinstance(s, ast.Assert):
+                    c = self.cond(s.test, env)
+                    if isinstance(c, Opaque):
+                        raise TranslationRefused(self.spec['name'], f'line {s.lineno}: assert on: {c.why}')
+                    if c.op == 'bool':
+                        if c.a[0]:
+                            i += 1
+                            continue
+                        return self.wrap(binds, ('raise', 'AssertionErr'))
+                    t = self.block(rest, dict(env), end, tail)
+                    self.binds = binds
+                    return self.wrap(binds, ('ite', c, t, ('raise', 'AssertionErr')))
+                lf = self.spec.get('loop_focus')
+                if isinstance(s, ast.For) and lf and self.depth == 0 and ast.unparse(s.iter) == lf['iter']:
+                    return self.wrap(binds, self.loop_focus(s, env))
+                if isinstance(s, ast.If) and tail and not rest and not _has_exit([s]):
+                    # the last statement of an observed block: observe inside the branches (a skipped `if`
+                    # without else observes nothing)
+                    c = self.cond(s.test, env)
+                    if isinstance(c, Opaque):
+                        raise TranslationRefused(self.spec['name'], f'line {s.lineno}: the observed block is entered '
+                                                                     f'depending on: {c.why}')
+                    if c.op == 'bool':
+                        stmts = list(s.body if c.a[0] else s.orelse)
+                        i = 0
+                        if not stmts:
+                            return self.wrap(binds, ('none',))
+                        continue
+                    snap = {k: list(v) for k, v in self.call_obs.items()}
+                    t = self.block(list(s.body), dict(env), end, tail)
+                    self.binds = binds
+                    self.call_obs = {k: list(v) for k, v in snap.items()}
+                    f = self.block(list(s.orelse), dict(env), end, tail) if s.orelse else ('none',)
+                    self.binds = binds
+                    return self.wrap(binds, ('ite', c, t, f))
                 if isinstance(s, ast.If) and _has_exit([s]):
                     c = self.cond(s.test, env)
                     if isinstance(c, Opaque):
@@ -1056,9 +1484,11 @@ class Exec:
                         stmts = list(s.body if c.a[0] else s.orelse) + rest
                         i = 0
                         continue
-                    t = self.block(list(s.body) + rest, dict(env), end)
+                    snap = {k: list(v) for k, v in self.call_obs.items()}
+                    t = self.block(list(s.body) + rest, dict(env), end, tail)
                     self.binds = binds
-                    f = self.block(list(s.orelse) + rest, dict(env), end)
+                    self.call_obs = {k: list(v) for k, v in snap.items()}
+                    f = self.block(list(s.orelse) + rest, dict(env), end, tail)
                     self.binds = binds
                     return self.wrap(binds, ('ite', c, t, f))
                 self.stmt(s, env)
@@ -1081,17 +1511,23 @@ class Exec:
 def _make_input(kind, base, namer, inputs):
     """the symbolic value of a parameter/atom of the given kind; appends (name, type, component names)"""
     k = kind[0]
+    pos = 'pos' in kind[1:]
     if k == 'T':
         n = kind[1]
         if n == 0:
             return PyTuple([])
         nm = namer.fresh(base)
         comps = [namer.fresh(f'{base}_{i}') for i in range(n)]
+        if pos:
+            _POSVARS.update(comps)
         inputs.append({'name': nm, 'type': TZn(n) if n > 1 else TZ, 'comps': comps})
         return PyTuple([var(c, 'Z') for c in comps])
     if k == 'SEQ':
         v = _make_input(T(kind[1]), base, namer, inputs)
         return Seq(v.items)
+    if k == 'VEC':                       # a small integer numpy vector
+        v = _make_input(T(kind[1]), base, namer, inputs)
+        return Vec(v.items)
     if k == 'B':
         nm = namer.fresh(base)
         inputs.append({'name': nm, 'type': TB, 'comps': None})
@@ -1099,6 +1535,8 @@ def _make_input(kind, base, namer, inputs):
     if k == 'Z':
         nm = namer.fresh(base)
         inputs.append({'name': nm, 'type': TZ, 'comps': None})
+        if pos:
+            _POSVARS.add(nm)
         return var(nm, 'Z')
     if k == 'NONE':
         return NONE
@@ -1111,7 +1549,7 @@ def _make_input(kind, base, namer, inputs):
         z = [var(c, 'Z') for c in comps]
         return PyTuple([Slice(z[0], z[1]), Slice(z[2], z[3])])
     if k == 'ARR':
-        shape = _make_input(T(kind[1]), base + '_shape', namer, inputs)
+        shape = _make_input(('T', kind[1]) + (('pos',) if pos else ()), base + '_shape', namer, inputs)
         return Arr(base, shape, kind[1])
     if k == 'OBJ':
         return Obj(base, {a: _make_input(t, f'{base}_{a}', namer, inputs) for a, t in kind[1].items()})
@@ -1168,41 +1606,85 @@ def _leaf_types(t, name, acc):
         _leaf_types(t[2], name, acc)
         _leaf_types(t[3], name, acc)
     elif k == 'ret':
-        ty = _vtype(t[1], name, 'result')
-        if ('unit',) in (ty[1] if ty[0] == 'tuple' else []):
-            raise TranslationRefused(name, 'result: an empty tuple inside a tuple')
-        acc['ret'].append(ty)
+        acc['ret'].append(_vtype(t[1], name, 'result'))
     elif k == 'none':
         acc['none'] = True
     elif k == 'raise':
         acc['raise'] = True
 
 
+def _unify(a, b, name):
+    """the common type of two result shapes: () against T is option T, componentwise inside tuples"""
+    if a == b:
+        return a
+    if a == ('unit',) or b == ('unit',):
+        o = b if a == ('unit',) else a
+        return o if o[0] == 'option' else TOPT(o)
+    if a[0] == 'option' or b[0] == 'option':
+        return TOPT(_unify(a[1] if a[0] == 'option' else a, b[1] if b[0] == 'option' else b, name))
+    if a[0] == 'tuple' and b[0] == 'tuple' and len(a[1]) == len(b[1]):
+        return TT(*[_unify(x, y, name) for x, y in zip(a[1], b[1])])
+    raise TranslationRefused(name, f'the function returns values of different shapes: {a} and {b}')
+
+
+def _has_unit(t):
+    return t == ('unit',) or (t[0] in ('tuple',) and any(_has_unit(x) for x in t[1])) or \
+        (t[0] in ('option', 'result') and _has_unit(t[1]))
+
+
+def _strip(t):
+    """a result type without the marker of an option that stands for an unobserved return"""
+    if t[0] in ('option', 'result', 'list'):
+        return (t[0], _strip(t[1]))
+    if t[0] == 'tuple':
+        return ('tuple', [_strip(x) for x in t[1]])
+    return t
+
+
 def _result_type(term, name):
     acc = {'ret': [], 'none': False, 'raise': False}
     _leaf_types(term, name, acc)
-    tys = []
-    for t in acc['ret']:
-        if t not in tys:
-            tys.append(t)
-    unit = ('unit',) in tys
-    tys = [t for t in tys if t != ('unit',)]
-    if len(tys) != 1:
-        raise TranslationRefused(name, 'the function returns values of different shapes: '
-                                 + ', '.join(map(str, tys)) if tys else 'the function returns only ()')
-    ty = tys[0]
-    if unit and acc['none']:
-        raise TranslationRefused(name, 'both () results and unobserved returns')
-    if unit or acc['none']:
-        ty = TOPT(ty)
+    if not acc['ret']:
+        raise TranslationRefused(name, 'no path of the function yields a value')
+    ty = acc['ret'][0]
+    for t in acc['ret'][1:]:
+        ty = _unify(ty, t, name)
+    if _has_unit(ty):
+        raise TranslationRefused(name, 'the function returns () on every path (or inside a tuple on every path)')
+    if acc['none']:
+        if ty[0] == 'option':
+            raise TranslationRefused(name, 'both () results and unobserved returns')
+        ty = ('option', ty, 'none-leaf')
     if acc['raise']:
         ty = TRES(ty)
     return ty
 
 
-def translate_one(spec, fdefs):
+def _extra_inputs(spec, namer, inputs, ex=None):
+    """the inputs that are not parameters, in the fixed order: calls, arr_calls, assume, assume_at_loop"""
+    for key, (anm, kind) in spec.get('calls', {}).items():
+        v = _make_input(kind, anm, namer, inputs)
+        if ex:
+            ex.atoms[key] = v
+    for d, tab in spec.get('arr_calls', {}).items():
+        for arr, (anm, kind) in tab.items():
+            v = _make_input(kind, anm, namer, inputs)
+            if ex:
+                ex.arr_atoms[(d, arr)] = v
+    for nm, kind in spec.get('assume', {}).items():
+        v = _make_input(kind, nm, namer, inputs)
+        if ex:
+            ex.assumed[nm] = v
+    for nm, kind in spec.get('assume_at_loop', {}).items():
+        v = _make_input(kind, nm, namer, inputs)
+        if ex:
+            ex.assumed_at_loop[nm] = v
+
+
+def translate_one(spec, fdefs, loader=None):
     """-> dict(defs=[coq text...], py=source text, inputs=[...], rtype=...) or raises TranslationRefused"""
     name = spec['name']
+    _POSVARS.clear()
     fd = fdefs.get(spec['func'])
     if fd is None:
         raise TranslationRefused(name, f'function {spec["func"]} not found in {spec["file"]}')
@@ -1222,8 +1704,8 @@ def translate_one(spec, fdefs):
         if isinstance(env[p], ListOf):
             ex.listvars[p] = env[p].input
     ex.param0 = dict(env)
-    for key, (anm, kind) in spec.get('calls', {}).items():
-        ex.atoms[key] = _make_input(kind, anm, namer, inputs)
+    ex.loader = loader
+    _extra_inputs(spec, namer, inputs, ex)
     body = list(fd.body)
     if 'focus' in spec:
         pre, body = spec['focus'](fd, name)
@@ -1248,7 +1730,7 @@ def translate_one(spec, fdefs):
 
     for n in ast.walk(ast.Module(body=body, type_ignores=[])):
         if isinstance(n, (ast.FunctionDef, ast.AsyncFunctionDef, ast.ClassDef, ast.Global, ast.Nonlocal, ast.While,
-                          ast.Try, ast.With, ast.Delete, ast.Import, ast.ImportFrom, ast.NamedExpr, ast.Assert,
+                          ast.Try, ast.With, ast.Delete, ast.Import, ast.ImportFrom, ast.NamedExpr,
                           ast.Match if hasattr(ast, 'Match') else ast.While)):
             raise TranslationRefused(name, f'line {n.lineno}: {type(n).__name__} is outside the whitelist')
     try:
@@ -1256,7 +1738,7 @@ def translate_one(spec, fdefs):
     except _Unsup as e:          # should have been converted; fail closed
         raise TranslationRefused(name, str(e))
     rtype = _result_type(term, name)
-    if rtype != spec['rtype']:
+    if _strip(rtype) != spec['rtype']:
         raise TranslationRefused(name, f'result type {coq_type(rtype)} is not the declared {coq_type(spec["rtype"])}')
     return {'term': term, 'inputs': inputs, 'rtype': rtype, 'helpers': ex.helpers}
 
@@ -1282,7 +1764,7 @@ def gx(x):
         return f'({gx(x.a[0])} {_GBIN[o]} {gx(x.a[1])})'
     if o == 'ne':
         return f'(negb ({gx(x.a[0])} =? {gx(x.a[1])}))'
-    if o in ('max', 'min'):
+    if o in ('max', 'min', 'quot'):
         return f'(Z.{o} {gx(x.a[0])} {gx(x.a[1])})'
     if o == 'neg':
         return f'(- {gx(x.a[0])})'
@@ -1293,11 +1775,18 @@ def gx(x):
     raise ValueError(o)
 
 
-def gv(v):
+def gv(v, ty=None, top=False):
+    """a value printed against its (unified) type: under an option type () is None, anything else Some"""
+    if ty is not None and ty[0] == 'option':
+        if isinstance(v, PyTuple) and not v.items:
+            return 'None'
+        r = f'Some {gv(v, ty[1])}'
+        return r if top else f'({r})'
     if isinstance(v, X):
         return gx(v)
     if isinstance(v, PyTuple):
-        return '(' + ', '.join(gv(it) for it in v.items) + ')'
+        ts = ty[1] if ty is not None else [None] * len(v.items)
+        return '(' + ', '.join(gv(it, t) for it, t in zip(v.items, ts)) + ')'
     if isinstance(v, Slice):
         return f'({gx(v.start)}, {gx(v.stop)})'
     raise ValueError(v)
@@ -1307,15 +1796,14 @@ def g_leaf(t, rtype):
     """a leaf of the term under the result type"""
     res = rtype[0] == 'result'
     inner = rtype[1] if res else rtype
-    opt = inner[0] == 'option'
     if t[0] == 'raise':
         return f'Err {t[1]}'
-    if t[0] == 'none' or (t[0] == 'ret' and isinstance(t[1], PyTuple) and not t[1].items):
+    if t[0] == 'none':
         s = 'None'
+    elif len(inner) == 3:                       # option that stands for an unobserved return
+        s = f'Some {gv(t[1], inner[1])}'
     else:
-        s = gv(t[1])
-        if opt:
-            s = f'Some {s}'
+        s = gv(t[1], inner, top=True)
     return f'Ok ({s})' if res else s
 
 
@@ -1383,6 +1871,8 @@ def px(x):
         return f'({px(x.a[0])} {_PBIN[o]} {px(x.a[1])})'
     if o in ('max', 'min'):
         return f'{o}({px(x.a[0])}, {px(x.a[1])})'
+    if o == 'quot':
+        return f'_quot({px(x.a[0])}, {px(x.a[1])})'
     if o == 'neg':
         return f'(-{px(x.a[0])})'
     if o == 'not':
@@ -1392,11 +1882,16 @@ def px(x):
     raise ValueError(o)
 
 
-def pv(v):
+def pv(v, ty=None):
+    if ty is not None and ty[0] == 'option':
+        if isinstance(v, PyTuple) and not v.items:
+            return 'None'
+        return pv(v, ty[1])
     if isinstance(v, X):
         return px(v)
     if isinstance(v, PyTuple):
-        return '(' + ', '.join(pv(it) for it in v.items) + ',)'
+        ts = ty[1] if ty is not None else [None] * len(v.items)
+        return '(' + ', '.join(pv(it, t) for it, t in zip(v.items, ts)) + ',)'
     if isinstance(v, Slice):
         return f'({px(v.start)}, {px(v.stop)},)'
     raise ValueError(v)
@@ -1405,12 +1900,13 @@ def pv(v):
 def p_leaf(t, rtype):
     """python value conventions: option -> None | value; result -> ('err', kind) | ('ok', value)"""
     res = rtype[0] == 'result'
+    inner = rtype[1] if res else rtype
     if t[0] == 'raise':
         return f"('err', {t[1]!r})"
-    if t[0] == 'none' or (t[0] == 'ret' and isinstance(t[1], PyTuple) and not t[1].items):
+    if t[0] == 'none':
         s = 'None'
     else:
-        s = pv(t[1])
+        s = pv(t[1], inner[1] if len(inner) == 3 else inner)
     return f"('ok', {s})" if res else s
 
 
@@ -1580,6 +2076,156 @@ SPECS = [
                   '(cmin + snd shape >? snd a_shape) then Err ValueError\n'
                   '  else Ok (rmin, rmin + fst shape, cmin, cmin + snd shape)'),
 ]
+
+
+# ---------------------------------------------------------------------- C02: lentil/propagate.py
+PRP = 'lentil/propagate.py'
+_PRP_INLINE = ('_mask_shape', '_mask_shift') + tuple('lentil.extent.' + f for f in _EXT_INLINE)
+_PRP_PARAMS = {'wavefront': OBJ(shape=T(2)), 'pixelscale': OPAQUE_K, 'shape': T(2), 'prop_shape': T(2),
+               'oversample': Z_K, 'mask': NONE_K}
+_T_SHAPES = TT(TZn(2), TZn(2), TZn(4))
+_OBS_SHAPES = '(tuple(shape_out), tuple(prop_shape_out), out_extent)'
+_FB_SHAPES = ('((fst {s} * oversample, snd {s} * oversample), (fst {p} * oversample, snd {p} * oversample), '
+              'array_extent (fst {s} * oversample) (snd {s} * oversample) 0 0)')
+
+SPECS_C02 = [
+    dict(name='mask_shape', file=PRP, func='_mask_shape', params={'x': ARR(2), 'threshold': OPAQUE_K},
+         arr_calls={'lentil.boundary': {'x': ('bnd', T(4))}}, rtype=TZn(2),
+         doc='_mask_shape(x, threshold) as a function of bnd = lentil.boundary(x, threshold)',
+         fallback='mask_shape bnd'),
+    dict(name='mask_shift', file=PRP, func='_mask_shift', params={'x': ARR(2), 'threshold': OPAQUE_K},
+         arr_calls={'lentil.boundary': {'x': ('bnd', T(4))}}, rtype=TZn(2),
+         doc='_mask_shift(x, threshold) as a function of x.shape and bnd = lentil.boundary(x, threshold)',
+         fallback='mask_shift (fst x_shape) (snd x_shape) bnd'),
+    dict(name='dft_shapes', file=PRP, func='propagate_dft', params=_PRP_PARAMS, inline=_PRP_INLINE,
+         modules={'lentil.extent': EXT}, loop_focus={'iter': 'data', 'mode': 'before'}, observe=_OBS_SHAPES,
+         rtype=_T_SHAPES,
+         doc='propagate_dft(wavefront, pixelscale, shape, prop_shape, oversample, mask=None) for 2-tuple shape and '
+             'prop_shape: (shape_out, prop_shape_out, out_extent) when the loop over the fields is reached',
+         fallback=_FB_SHAPES.format(s='shape', p='prop_shape')),
+    dict(name='dft_shapes_default', file=PRP, func='propagate_dft',
+         params=dict(_PRP_PARAMS, shape=NONE_K, prop_shape=NONE_K), inline=_PRP_INLINE,
+         modules={'lentil.extent': EXT}, loop_focus={'iter': 'data', 'mode': 'before'}, observe=_OBS_SHAPES,
+         rtype=_T_SHAPES,
+         doc='the same with shape=None, prop_shape=None: both default to wavefront.shape',
+         fallback=_FB_SHAPES.format(s='wavefront_shape', p='wavefront_shape')),
+    dict(name='dft_shapes_mask', file=PRP, func='propagate_dft', params=dict(_PRP_PARAMS, mask=ARR(2)),
+         inline=_PRP_INLINE, modules={'lentil.extent': EXT},
+         arr_calls={'lentil.boundary': {'mask': ('bnd', T(4))}},
+         loop_focus={'iter': 'data', 'mode': 'before'}, observe=_OBS_SHAPES, rtype=TRES(_T_SHAPES),
+         doc='the same with a 2-d mask, as a function of mask.shape and bnd = lentil.boundary(mask, 0): Err ValueError '
+             'where the shape check raises, else the output window is the bounding box of the mask',
+         fallback='if negb (fst mask_shape =? fst shape * oversample) && negb (snd mask_shape =? snd shape * oversample) '
+                  'then Err ValueError else\n'
+                  "  let '(msr, msc) := Propagate.mask_shape bnd in\n"
+                  "  let '(mhr, mhc) := Propagate.mask_shift (fst mask_shape) (snd mask_shape) bnd in\n"
+                  '  Ok ((fst shape * oversample, snd shape * oversample), '
+                  '(fst prop_shape * oversample, snd prop_shape * oversample), array_extent msr msc mhr mhc)'),
+    dict(name='dft_field_window', file=PRP, func='propagate_dft',
+         params=dict(_PRP_PARAMS, shape=NONE_K, prop_shape=NONE_K), inline=_PRP_INLINE,
+         modules={'lentil.extent': EXT}, loop_focus={'iter': 'data', 'mode': 'body'},
+         assume={'fix_shift': VEC(2)}, assume_at_loop={'out_extent': T(4), 'prop_shape_out': VEC(2)},
+         observe='(intersect_shape, intersect_shift, tuple(prop_shift))',
+         rtype=TOPT(TT(TOPT(TZn(2)), TZn(2), TZn(2))),
+         doc='one iteration of the loop of propagate_dft over the fields, for ARBITRARY integer values of out_extent and '
+             'prop_shape_out at the loop and of fix_shift = np.fix(shift) (taken as an integer pair): the value of '
+             '(intersect_shape, intersect_shift, prop_shift) at the end of the `if intersect(...)` block, None when '
+             'the block is skipped; intersect_shape () is None',
+         fallback="let pe := array_extent (fst prop_shape_out) (snd prop_shape_out) (fst fix_shift) (snd fix_shift) in\n"
+                  '  if intersect out_extent pe then\n'
+                  '    let ishape := intersection_shape out_extent pe in\n'
+                  '    let ishift := intersection_shift out_extent pe in\n'
+                  "    let '(Ir1, Ic1) := match ishape with Some sh => sh | None => (1, 1) end in\n"
+                  '    let ie := array_extent Ir1 Ic1 (fst ishift) (snd ishift) in\n'
+                  "    let '(pcr, pcc) := array_center pe in let '(icr, icc) := array_center ie in\n"
+                  '    Some (ishape, ishift, (pcr - icr, pcc - icc))\n'
+                  '  else None'),
+]
+
+# ---------------------------------------------------------------------- C20: lentil/util.py rebin
+UTL = 'lentil/util.py'
+SPECS_C20 = [
+    dict(name='rebin_reshape', file=UTL, func='rebin', params={'img': ARR(2), 'factor': Z_POS},
+         calls={'np.iscomplexobj(img)': ('is_complex', BOOL_K)}, observe_calls={'RESHAPE': '.reshape'},
+         observe='RESHAPE_0', rtype=TRES(TZn(4)),
+         doc='rebin(img, factor) for a 2-d img and factor > 0: Err ValueError for complex data, else the four integers '
+             'passed to img.reshape (is_complex = np.iscomplexobj(img))',
+         fallback='if is_complex then Err ValueError else Ok (fst img_shape / factor, factor, snd img_shape / factor, '
+                  'factor)'),
+    dict(name='rebin_reshape_3d', file=UTL, func='rebin', params={'img': ARR(3), 'factor': Z_POS},
+         calls={'np.iscomplexobj(img)': ('is_complex', BOOL_K)}, observe_calls={'RESHAPE': '.reshape'},
+         observe='(rebinned_shape, RESHAPE_0)', rtype=TRES(TT(TZn(3), TZn(4))),
+         doc='rebin(img, factor) for a cube: rebinned_shape and the four integers passed to img[i].reshape',
+         fallback="let '(d, n, m) := img_shape in if is_complex then Err ValueError else "
+                  'Ok ((d, n / factor, m / factor), (n / factor, factor, m / factor, factor))'),
+]
+
+# ---------------------------------------------------------------------- C16: lentil/detector.py
+DET = 'lentil/detector.py'
+_ADC_PARAMS = {'img': OPAQUE_K, 'gain': ARR(0), 'saturation_capacity': OPAQUE_K, 'warn_saturate': OPAQUE_K,
+               'dtype': OPAQUE_K}
+SPECS_C16 = [
+    dict(name='bayer_mosaic', file=DET, func='collect_charge_bayer',
+         params={'img': ARR(3), 'wave': OPAQUE_K, 'qe_red': OPAQUE_K, 'qe_green': OPAQUE_K, 'qe_blue': OPAQUE_K,
+                 'bayer_pattern': OPAQUE_K, 'oversample': Z_POS, 'waveunit': OPAQUE_K, 'flatten': OPAQUE_K},
+         assume={'red_kernel': ('ARR', 2, 'pos'), 'green_kernel': ('ARR', 2, 'pos'), 'blue_kernel': ('ARR', 2, 'pos')},
+         observe_calls={'TILE': 'np.tile'}, observe='(nrow, ncol, TILE_0[1], TILE_1[1], TILE_2[1])',
+         rtype=TT(TZ, TZ, TZn(2), TZn(2), TZn(2)),
+         doc='collect_charge_bayer for a 3-d img and oversample > 0, with the shapes of the three colour kernels '
+             '(np.where(bayer_pattern == ch, 1, 0)) as arguments: nrow, ncol and the repetition counts passed to the '
+             'three np.tile calls',
+         fallback="let '(d, R, C) := img_shape in let nrow := R / oversample in let ncol := C / oversample in\n"
+                  '  (nrow, ncol, (nrow / fst red_kernel_shape, ncol / snd red_kernel_shape), '
+                  '(nrow / fst green_kernel_shape, ncol / snd green_kernel_shape), '
+                  '(nrow / fst blue_kernel_shape, ncol / snd blue_kernel_shape))'),
+    dict(name='adc_order_0d', file=DET, func='adc', params=_ADC_PARAMS, observe='model_order', rtype=TZ,
+         doc='adc(img, gain, ...) for a 0-d gain: model_order at its return', fallback='1'),
+    dict(name='adc_order_1d', file=DET, func='adc', params=dict(_ADC_PARAMS, gain=ARR(1)), observe='model_order',
+         rtype=TZ, doc='adc for a 1-d gain (polynomial coefficients): model_order', fallback='gain_shape'),
+    dict(name='adc_order_2d', file=DET, func='adc', params=dict(_ADC_PARAMS, gain=ARR(2)), observe='model_order',
+         rtype=TZ, doc='adc for a 2-d gain (per pixel): model_order', fallback='1'),
+    dict(name='adc_order_3d', file=DET, func='adc', params=dict(_ADC_PARAMS, gain=ARR(3)), observe='model_order',
+         rtype=TZ, doc='adc for a 3-d gain (per-pixel polynomial): model_order',
+         fallback="let '(k, r, c) := gain_shape in k"),
+]
+
+# ---------------------------------------------------------------------- C09: lentil/propagate.py propagate_fft
+_FFT_PARAMS = {'wavefront': OPAQUE_K, 'pixelscale': OPAQUE_K, 'shape': T(2), 'oversample': Z_POS, 'scratch': NONE_K}
+_FFT_COMMON = dict(file=PRP, func='propagate_fft', calls={'_has_tilt(wavefront)': ('has_tilt', BOOL_K)},
+                   assume={'fft_shape': VEC(2)}, rationals=True, observe='(shape_out, shape)')
+_FB_FFT = ('if has_tilt then Err NotImplementedErr else if (fst fft_shape <? fst shape * oversample) || '
+           '(snd fft_shape <? snd shape * oversample) then Err ValueError else {scr}'
+           'Ok ((fst shape * oversample, snd shape * oversample), shape)')
+SPECS_C09 = [
+    dict(_FFT_COMMON, name='fft_out_shape', params=_FFT_PARAMS, rtype=TRES(TT(TZn(2), TZn(2))),
+         doc='propagate_fft(wavefront, pixelscale, shape, oversample, scratch=None) for a 2-tuple shape and oversample > 0, '
+             'with fft_shape (the integer grid _fft_shape returned) and has_tilt = _has_tilt(wavefront) as arguments: the '
+             'errors it raises and (shape_out, shape) at its return.  shape > fft_shape/oversample is translated exactly '
+             '(shape*oversample > fft_shape)',
+         fallback=_FB_FFT.format(scr='')),
+    dict(_FFT_COMMON, name='fft_out_shape_default', params=dict(_FFT_PARAMS, shape=NONE_K),
+         rtype=TRES(TT(TZn(2), TZn(2))), doc='the same with shape=None',
+         fallback='if has_tilt then Err NotImplementedErr else Ok (fft_shape, (fst fft_shape / oversample, '
+                  'snd fft_shape / oversample))'),
+    dict(_FFT_COMMON, name='fft_out_shape_scratch', params=dict(_FFT_PARAMS, scratch=ARR(2)),
+         rtype=TRES(TT(TZn(2), TZn(2))), doc='the same with a 2-d scratch array: also the scratch-size check',
+         fallback=_FB_FFT.format(scr='if negb ((fst fft_shape <=? fst scratch_shape) && '
+                                     '(snd fft_shape <=? snd scratch_shape)) then Err ValueError else ')),
+]
+
+# one table per property: the whitelist, the generated file, what it imports, the Coq files of the layer
+SUITES = {
+    'C20': {'specs': SPECS_C20, 'gen': 'theories/Gen/GeometrySrc.v', 'imports': 'Model.Geometry',
+            'proofs': 'theories/Proofs/GeometrySrcP.v', 'target': 'theories/Properties/C20Src.vo', 'props': 'C20Src'},
+    'C16': {'specs': SPECS_C16, 'gen': 'theories/Gen/DetectorSrc.v', 'imports': 'Lib.Base',
+            'proofs': 'theories/Proofs/DetectorSrcP.v', 'target': 'theories/Properties/C16Src.vo', 'props': 'C16Src'},
+    'C09': {'specs': SPECS_C09, 'gen': 'theories/Gen/FftSrc.v', 'imports': 'Lib.Base',
+            'proofs': 'theories/Proofs/FftSrcP.v', 'target': 'theories/Properties/C09Src.vo', 'props': 'C09Src'},
+    'C02': {'specs': SPECS_C02, 'gen': 'theories/Gen/PropagateSrc.v', 'imports': 'Model.Extent Model.Propagate',
+            'proofs': 'theories/Proofs/PropagateSrcP.v', 'target': 'theories/Properties/C02Src.vo', 'props': 'C02Src'},
+    'C06': {'specs': SPECS, 'gen': 'theories/Gen/ExtentSrc.v', 'imports': 'Model.Extent Model.Field Model.Geometry',
+            'proofs': 'theories/Proofs/ExtentSrcP.v', 'target': 'theories/Properties/C06Src.vo', 'props': 'C06Src'},
+}
 
 
 # ====================================================================== python mirrors of the MODEL
@@ -1842,6 +2488,8 @@ def _valid_pref(name, args):
     replayable through the public API whenever one exists)"""
     def ext_ok(e):
         return e[0] <= e[1] and e[2] <= e[3]
+    if name in PREF:
+        return PREF[name](*args)
     if name in ('array_center', 'merge_offset'):
         return ext_ok(args[0])
     if name in ('intersect', 'intersection_extent', 'intersection_shape', 'intersection_slices',
@@ -1899,7 +2547,8 @@ def arg_space(info, rng, exhaustive_budget=120000, n_random=4000, wide=40):
         return tuple(out)
 
     def gen():
-        for flat in itertools.product(*[(vals if k == 'Z' else [False, True]) for k in kinds]):
+        box = itertools.product(*[(vals if k == 'Z' else [False, True]) for k in kinds])
+        for flat in itertools.islice(box, 3 * exhaustive_budget):      # (more than ~10 integer arguments: a prefix)
             yield build(list(flat))
         for R in (6, wide):
             for _ in range(n_random):
@@ -1913,7 +2562,10 @@ def find_witness(name, info, pyfunc, rng, exhaustive_budget=120000, n_random=400
     mirror = MIRROR[name]
     gen, desc = arg_space(info, rng, exhaustive_budget, n_random)
     fallback = None
-    for args in gen:
+    import itertools
+    # first the arguments the self-check uses (they can be replayed through the running code), then the box
+    pre = (_sample_valid(name, info['inputs'], rng) for _ in range(3000))
+    for args in itertools.chain(pre, gen):
         try:
             a, b = pyfunc(*args), mirror(*args)
         except Exception:      # noqa: BLE001
@@ -1944,6 +2596,8 @@ def selfcheck(name, info, pyfunc, lentil, rng, n=160):
             continue
         compared += 1
         want = pyfunc(*args)
+        if name in PROJECT:            # the running code exposes only part of the translated value
+            want = PROJECT[name](want)
         if got != want:
             return compared, {'args': args, 'running_code': got, 'translated': want}
     return compared, None
@@ -1962,6 +2616,8 @@ def _sample_valid(name, inputs, rng):
 
     def off(R=8):
         return (rng.randint(-R, R), rng.randint(-R, R))
+    if name in SAMPLER:
+        return SAMPLER[name](rng)
     if name in ('array_extent', 'array_extent_parent'):
         a = (shp(-2, 7), off())
         return a + ((shp(-2, 9),) if name.endswith('parent') else ())
@@ -1994,6 +2650,508 @@ def _sample_valid(name, inputs, rng):
     return (ext(), ext())
 
 
+# ====================================================================== C02: mirrors, drivers, samplers
+PREF, SAMPLER = {}, {}
+
+
+def _m_mask_shift(xs, b):
+    return (b[0] + (b[1] - b[0] + 1) // 2 - xs[0] // 2, b[2] + (b[3] - b[2] + 1) // 2 - xs[1] // 2)
+
+
+def _m_dft_shapes(shape, pshape, os):
+    return ((shape[0] * os, shape[1] * os), (pshape[0] * os, pshape[1] * os),
+            _m_array_extent(shape[0] * os, shape[1] * os, 0, 0))
+
+
+def _m_dft_shapes_mask(shape, pshape, os, ms, b):
+    if ms[0] != shape[0] * os and ms[1] != shape[1] * os:
+        return ('err', 'ValueError')
+    sh, sf = (b[1] - b[0] + 1, b[3] - b[2] + 1), _m_mask_shift(ms, b)
+    return ('ok', ((shape[0] * os, shape[1] * os), (pshape[0] * os, pshape[1] * os),
+                   _m_array_extent(sh[0], sh[1], sf[0], sf[1])))
+
+
+def _m_window(oe, pso, fx):
+    pe = _m_array_extent(pso[0], pso[1], fx[0], fx[1])
+    if not (oe[0] <= pe[1] and oe[1] >= pe[0] and oe[2] <= pe[3] and oe[3] >= pe[2]):
+        return None
+    ishape = _m_ishape(oe, pe)
+    ishift = _m_center(_m_iext(oe, pe))
+    i1 = ishape if ishape is not None else (1, 1)
+    ie = _m_array_extent(i1[0], i1[1], ishift[0], ishift[1])
+    pc, ic = _m_center(pe), _m_center(ie)
+    return (ishape, ishift, (pc[0] - ic[0], pc[1] - ic[1]))
+
+
+MIRROR.update({
+    'mask_shape': lambda xs, b: (b[1] - b[0] + 1, b[3] - b[2] + 1),
+    'mask_shift': _m_mask_shift,
+    'dft_shapes': lambda ws, shape, pshape, os: _m_dft_shapes(shape, pshape, os),
+    'dft_shapes_default': lambda ws, os: _m_dft_shapes(ws, ws, os),
+    'dft_shapes_mask': lambda ws, shape, pshape, os, ms, b: _m_dft_shapes_mask(shape, pshape, os, ms, b),
+    'dft_field_window': lambda ws, os, fx, oe, pso: _m_window(oe, pso, fx),
+})
+
+
+def _mask_array(xs, b):
+    import numpy as np
+    n, m = xs
+    if not (0 <= b[0] <= b[1] < n <= 48 and 0 <= b[2] <= b[3] < m <= 48):
+        return None
+    x = np.zeros((n, m), dtype=int)
+    x[b[0], b[2]] = 1
+    x[b[1], b[3]] = 1
+    return x
+
+
+def _drv_maskfn(fn):
+    def drv(L, xs, b):
+        x = _mask_array(xs, b)
+        return SKIP if x is None else _ints(getattr(L.propagate, fn)(x, 0))
+    return drv
+
+
+def _wavefront(L, wshape):
+    import numpy as np
+    return L.Wavefront(650e-9) * L.Pupil(amplitude=np.ones(wshape), pixelscale=1e-3, focal_length=10.0)
+
+
+def _small(*shapes, lo=1, hi=10):
+    return all(lo <= v <= hi for sh in shapes for v in sh)
+
+
+def _drv_dft_shapes(L, ws, shape, pshape, os, ms=None, b=None):
+    if not (_small(ws, hi=6) and (shape is None or _small(shape, pshape, hi=6)) and 1 <= os <= 3):
+        return SKIP
+    kw = {'oversample': os}
+    if shape is not None:
+        kw.update(shape=tuple(shape), prop_shape=tuple(pshape))
+    if ms is not None:
+        kw['mask'] = _mask_array(ms, b)
+        if kw['mask'] is None:
+            return SKIP
+    loc, r = _trace_locals(L.propagate.propagate_dft, 'propagate_dft', 'lentil/propagate.py', _wavefront(L, ws),
+                           5e-6, **kw)
+    if loc is None:
+        return SKIP
+    if 'out_extent' not in loc:
+        return ('err', 'ValueError') if (isinstance(r, ValueError) and ms is not None) else SKIP
+    v = (_ints(loc['shape_out']), _ints(loc['prop_shape_out']), _ints(loc['out_extent']))
+    return ('ok', v) if ms is not None else v
+
+
+def _drv_dft_window(L, ws, os, fx, oe, pso):
+    """realisable only when out_extent is the centred window of some shape*oversample and prop_shape_out is a
+    multiple of oversample; the field's shift() is replaced by one whose np.fix is the requested fix_shift"""
+    if not (1 <= os <= 3 and _small(ws, hi=5)):
+        return SKIP
+    rows, cols = oe[1] - oe[0] + 1, oe[3] - oe[2] + 1
+    if rows < 1 or cols < 1 or rows % os or cols % os or pso[0] < 1 or pso[1] < 1 or pso[0] % os or pso[1] % os \
+            or max(rows, cols, pso[0], pso[1]) > 24 or _m_array_extent(rows, cols, 0, 0) != tuple(oe):
+        return SKIP
+    w = _wavefront(L, ws)
+    sh = tuple(float(v) + (0.25 if v >= 0 else -0.25) for v in fx)
+
+    class _F(L.field.Field):
+        __slots__ = ()
+
+        def shift(self, *a, **k):
+            return sh
+    w.data = [_F(f.data, f.pixelscale, f.offset, f.tilt) for f in w.data[:1]]
+    loc, r = _trace_locals(L.propagate.propagate_dft, 'propagate_dft', 'lentil/propagate.py', w, 5e-6,
+                           shape=(rows // os, cols // os), prop_shape=(pso[0] // os, pso[1] // os), oversample=os)
+    if loc is None or 'prop_extent' not in loc:
+        return SKIP
+    if _ints(loc['prop_shape_out']) != tuple(pso) or _ints(loc['out_extent']) != tuple(oe):
+        return SKIP                       # the call did not produce the requested values at the loop
+    if 'intersect_shape' not in loc:
+        return None
+    ish = loc['intersect_shape']
+    if 'prop_shift' not in loc:
+        return SKIP
+    return (None if len(ish) == 0 else _ints(ish), _ints(loc['intersect_shift']), _ints(loc['prop_shift']))
+
+
+DRIVER.update({
+    'mask_shape': _drv_maskfn('_mask_shape'),
+    'mask_shift': _drv_maskfn('_mask_shift'),
+    'dft_shapes': lambda L, ws, shape, pshape, os: _drv_dft_shapes(L, ws, shape, pshape, os),
+    'dft_shapes_default': lambda L, ws, os: _drv_dft_shapes(L, ws, None, None, os),
+    'dft_shapes_mask': _drv_dft_shapes,
+    'dft_field_window': _drv_dft_window,
+})
+
+
+def _s_mask(rng):
+    n, m = rng.randint(1, 9), rng.randint(1, 9)
+    r0, c0 = rng.randint(0, n - 1), rng.randint(0, m - 1)
+    return ((n, m), (r0, rng.randint(r0, n - 1), c0, rng.randint(c0, m - 1)))
+
+
+def _s_shape(rng, hi=5):
+    return (rng.randint(1, hi), rng.randint(1, hi))
+
+
+def _s_dft_mask(rng):
+    shape, os = _s_shape(rng, 4), rng.randint(1, 3)
+    t = rng.random()
+    ms = (shape[0] * os, shape[1] * os)
+    if t < 0.2:
+        ms = (ms[0] + 1, ms[1] + rng.randint(1, 2))           # both axes differ: the check raises
+    n, m = ms
+    r0, c0 = rng.randint(0, n - 1), rng.randint(0, m - 1)
+    return (_s_shape(rng, 4), shape, _s_shape(rng, 4), os, ms, (r0, rng.randint(r0, n - 1), c0, rng.randint(c0, m - 1)))
+
+
+def _s_window(rng):
+    os = rng.randint(1, 3)
+    shape, p = _s_shape(rng, 5), _s_shape(rng, 5)
+    oe = _m_array_extent(shape[0] * os, shape[1] * os, 0, 0)
+    R = max(shape) * os + 2
+    return (_s_shape(rng, 4), os, (rng.randint(-R, R), rng.randint(-R, R)), oe, (p[0] * os, p[1] * os))
+
+
+SAMPLER.update({
+    'mask_shape': _s_mask, 'mask_shift': _s_mask,
+    'dft_shapes': lambda rng: (_s_shape(rng, 4), _s_shape(rng), _s_shape(rng), rng.randint(1, 3)),
+    'dft_shapes_default': lambda rng: (_s_shape(rng), rng.randint(1, 3)),
+    'dft_shapes_mask': _s_dft_mask,
+    'dft_field_window': _s_window,
+})
+
+
+def _realisable_window(ws, os, fx, oe, pso):
+    rows, cols = oe[1] - oe[0] + 1, oe[3] - oe[2] + 1
+    return (os >= 1 and min(ws) >= 1 and rows >= 1 and cols >= 1 and rows % os == 0 and cols % os == 0
+            and min(pso) >= 1 and pso[0] % os == 0 and pso[1] % os == 0
+            and _m_array_extent(rows, cols, 0, 0) == tuple(oe))
+
+
+PREF.update({
+    'mask_shape': lambda xs, b: 0 <= b[0] <= b[1] < xs[0] and 0 <= b[2] <= b[3] < xs[1],
+    'mask_shift': lambda xs, b: 0 <= b[0] <= b[1] < xs[0] and 0 <= b[2] <= b[3] < xs[1],
+    'dft_shapes': lambda ws, s_, p_, os: min(ws + s_ + p_) >= 1 and os >= 1,
+    'dft_shapes_default': lambda ws, os: min(ws) >= 1 and os >= 1,
+    'dft_shapes_mask': lambda ws, s_, p_, os, ms, b: (min(ws + s_ + p_) >= 1 and os >= 1 and
+                                                       0 <= b[0] <= b[1] < ms[0] and 0 <= b[2] <= b[3] < ms[1]),
+    'dft_field_window': _realisable_window,
+})
+
+
+# ====================================================================== C20 / C16 / C09: mirrors, drivers, samplers
+PROJECT = {}
+
+
+def _m_rebin(sh, f, cplx):
+    return ('err', 'ValueError') if cplx else ('ok', (sh[0] // f, f, sh[1] // f, f))
+
+
+def _m_rebin3(sh, f, cplx):
+    return ('err', 'ValueError') if cplx else ('ok', ((sh[0], sh[1] // f, sh[2] // f), (sh[1] // f, f, sh[2] // f, f)))
+
+
+def _m_bayer(sh, os, kr, kg, kb):
+    nrow, ncol = sh[1] // os, sh[2] // os
+    return (nrow, ncol) + tuple((nrow // k[0], ncol // k[1]) for k in (kr, kg, kb))
+
+
+def _m_fft(shape, os, tilt, N, scr=None):
+    if tilt:
+        return ('err', 'NotImplementedErr')
+    if shape is None:
+        so, sh = tuple(N), (N[0] // os, N[1] // os)
+    else:
+        if N[0] < shape[0] * os or N[1] < shape[1] * os:
+            return ('err', 'ValueError')
+        so, sh = (shape[0] * os, shape[1] * os), tuple(shape)
+    if scr is not None and not (N[0] <= scr[0] and N[1] <= scr[1]):
+        return ('err', 'ValueError')
+    return ('ok', (so, sh))
+
+
+MIRROR.update({
+    'rebin_reshape': _m_rebin, 'rebin_reshape_3d': _m_rebin3, 'bayer_mosaic': _m_bayer,
+    'adc_order_0d': lambda: 1, 'adc_order_1d': lambda n: n, 'adc_order_2d': lambda sh: 1,
+    'adc_order_3d': lambda sh: sh[0],
+    'fft_out_shape': lambda shape, os, tilt, N: _m_fft(shape, os, tilt, N),
+    'fft_out_shape_default': lambda os, tilt, N: _m_fft(None, os, tilt, N),
+    'fft_out_shape_scratch': lambda shape, os, scr, tilt, N: _m_fft(shape, os, tilt, N, scr),
+})
+
+
+def _drv_rebin(L, sh, f, cplx):
+    import numpy as np
+    if min(sh) < 0 or max(sh) > 24 or not 1 <= f <= 8:
+        return SKIP
+    img = np.ones(sh, dtype=complex if cplx else float)
+    loc, r = _trace_locals(L.util.rebin, 'rebin', 'lentil/util.py', img, f)
+    if cplx:
+        return ('err', 'ValueError') if isinstance(r, ValueError) else ('unexpected', repr(r))
+    if isinstance(r, Exception):
+        return SKIP                    # numpy's reshape refused the sizes (not part of the translated arithmetic)
+    if len(sh) == 3:
+        return ('ok', (_ints(loc['rebinned_shape']), _ints(r.shape[1:])))
+    return ('ok', _ints(r.shape))
+
+
+PROJECT['rebin_reshape'] = lambda v: v if v[0] == 'err' else ('ok', (v[1][0], v[1][2]))
+PROJECT['rebin_reshape_3d'] = lambda v: v if v[0] == 'err' else ('ok', (v[1][0], (v[1][1][0], v[1][1][2])))
+
+
+def _drv_bayer(L, sh, os, kr, kg, kb):
+    import numpy as np
+    if not (kr == kg == kb and kr[0] == kr[1] and 1 <= kr[0] <= 3 and 1 <= os <= 3 and min(sh) >= 1 and max(sh) <= 24):
+        return SKIP
+    k = kr[0]
+    pat = ('RGB' * 3)[:k * k] if k != 2 else 'RGGB'
+    img = np.ones(sh)
+    loc, r = _trace_locals(L.detector.collect_charge_bayer, 'collect_charge_bayer', 'lentil/detector.py',
+                           img, list(range(1, sh[0] + 1)), 1.0, 1.0, 1.0, pat, os)
+    if loc is None or 'blue_mosaic' not in loc:
+        return SKIP
+    reps = []
+    for c in ('red', 'green', 'blue'):
+        m = loc[c + '_mosaic'].shape
+        if m[0] % (k * os) or m[1] % (k * os):
+            return ('unexpected mosaic shape', m)
+        reps.append((m[0] // (k * os), m[1] // (k * os)))
+    return (int(loc['nrow']), int(loc['ncol'])) + tuple(reps)
+
+
+def _drv_adc(ndim):
+    def drv(L, *a):
+        import numpy as np
+        sh = () if ndim == 0 else ((a[0],) if ndim == 1 else tuple(a[0]))
+        if any(not 1 <= v <= 5 for v in sh):
+            return SKIP
+        img = np.ones((sh[-2], sh[-1])) if ndim >= 2 else np.ones((3, 2))
+        loc, r = _trace_locals(L.detector.adc, 'adc', 'lentil/detector.py', img, np.ones(sh) if ndim else 2.0)
+        if loc is None or 'model_order' not in loc:
+            return SKIP
+        return int(loc['model_order'])
+    return drv
+
+
+def _drv_fft(L, shape, os, tilt, N, scr=None):
+    import numpy as np
+    if not (1 <= os <= 3 and 2 <= min(N) and max(N) <= 24 and (shape is None or (1 <= min(shape) and max(shape) <= 30))
+            and (scr is None or (1 <= min(scr) and max(scr) <= 30))):
+        return SKIP
+    wl, z, dx = 5e-7, 4.0, 1e-3
+    w = L.Wavefront(wl) * L.Pupil(amplitude=np.ones((2, 2)), pixelscale=dx, focal_length=z)
+    if tilt:
+        w.data[0].tilt = [object()]
+    du = (wl * z * os / (dx * N[0]), wl * z * os / (dx * N[1]))
+    kw = {'oversample': os}
+    if shape is not None:
+        kw['shape'] = tuple(shape)
+    if scr is not None:
+        kw['scratch'] = np.zeros(scr, dtype=complex)
+    loc, r = _trace_locals(L.propagate.propagate_fft, 'propagate_fft', 'lentil/propagate.py', w, du, **kw)
+    if isinstance(r, NotImplementedError):
+        return ('err', 'NotImplementedErr')
+    if loc is None or 'fft_shape' not in loc or _ints(loc['fft_shape']) != tuple(N):
+        return SKIP
+    if isinstance(r, ValueError):
+        return ('err', 'ValueError')
+    if isinstance(r, Exception):
+        return SKIP
+    return ('ok', (_ints(loc['shape_out']), _ints(loc['shape'])))
+
+
+DRIVER.update({
+    'rebin_reshape': _drv_rebin, 'rebin_reshape_3d': _drv_rebin, 'bayer_mosaic': _drv_bayer,
+    'adc_order_0d': _drv_adc(0), 'adc_order_1d': _drv_adc(1), 'adc_order_2d': _drv_adc(2), 'adc_order_3d': _drv_adc(3),
+    'fft_out_shape': lambda L, shape, os, tilt, N: _drv_fft(L, shape, os, tilt, N),
+    'fft_out_shape_default': lambda L, os, tilt, N: _drv_fft(L, None, os, tilt, N),
+    'fft_out_shape_scratch': lambda L, shape, os, scr, tilt, N: _drv_fft(L, shape, os, tilt, N, scr),
+})
+
+
+def _s_rebin(rng, nd=2):
+    f = rng.randint(1, 4)
+    sh = tuple(f * rng.randint(0, 4) + (rng.randint(0, f - 1) if rng.random() < 0.3 else 0) for _ in range(2))
+    return (((rng.randint(0, 3),) if nd == 3 else ()) + sh, f, rng.random() < 0.15)
+
+
+def _s_bayer(rng):
+    k, os = rng.randint(1, 3), rng.randint(1, 3)
+    sh = (rng.randint(1, 3), k * os * rng.randint(1, 3) + (1 if rng.random() < 0.2 else 0), k * os * rng.randint(1, 3))
+    return (sh, os, (k, k), (k, k), (k, k))
+
+
+def _s_fft(rng, scratch=False, default=False):
+    os, N = rng.randint(1, 3), (rng.randint(2, 12), rng.randint(2, 12))
+    shape = (max(1, N[0] // os + rng.randint(-2, 1)), max(1, N[1] // os + rng.randint(-2, 1)))
+    tilt = rng.random() < 0.1
+    if default:
+        return (os, tilt, N)
+    if scratch:
+        return (shape, os, (N[0] + rng.randint(-1, 2), N[1] + rng.randint(-1, 2)), tilt, N)
+    return (shape, os, tilt, N)
+
+
+SAMPLER.update({
+    'rebin_reshape': _s_rebin, 'rebin_reshape_3d': lambda rng: _s_rebin(rng, 3), 'bayer_mosaic': _s_bayer,
+    'adc_order_0d': lambda rng: (), 'adc_order_1d': lambda rng: (rng.randint(1, 5),),
+    'adc_order_2d': lambda rng: ((rng.randint(1, 5), rng.randint(1, 5)),),
+    'adc_order_3d': lambda rng: ((rng.randint(1, 4), rng.randint(1, 4), rng.randint(1, 4)),),
+    'fft_out_shape': _s_fft, 'fft_out_shape_default': lambda rng: _s_fft(rng, default=True),
+    'fft_out_shape_scratch': lambda rng: _s_fft(rng, scratch=True),
+})
+PREF.update({
+    'rebin_reshape': lambda sh, f, c: min(sh) >= 0 and f >= 1,
+    'rebin_reshape_3d': lambda sh, f, c: min(sh) >= 0 and f >= 1,
+    'bayer_mosaic': lambda sh, os, kr, kg, kb: min(sh) >= 1 and os >= 1 and kr == kg == kb and kr[0] == kr[1] >= 1,
+    'adc_order_0d': lambda: True, 'adc_order_1d': lambda n: n >= 1, 'adc_order_2d': lambda sh: min(sh) >= 1,
+    'adc_order_3d': lambda sh: min(sh) >= 1,
+    'fft_out_shape': lambda shape, os, tilt, N: os >= 1 and min(N) >= 2 and min(shape) >= 1,
+    'fft_out_shape_default': lambda os, tilt, N: os >= 1 and min(N) >= 2,
+    'fft_out_shape_scratch': lambda shape, os, scr, tilt, N: os >= 1 and min(N) >= 2 and min(shape) >= 1 and min(scr) >= 1,
+})
+
+
+# ====================================================================== the check of one layer (called from extra)
+def lemma_function(lemma, names):
+    """the spec name a lemma `src_<name>...` is about (longest match)"""
+    best = None
+    for n in names:
+        if lemma and lemma.startswith('src_' + n) and (best is None or len(n) > len(best)):
+            best = n
+    return best
+
+
+def src_case(name, w, common):
+    return {'op': 'src', 'function': name, 'args': common.jsonable(w['args']),
+            'translated_source_value': common.jsonable(w['source']), 'model_value': common.jsonable(w['model'])}
+
+
+def _detuple(x):
+    return tuple(_detuple(v) for v in x) if isinstance(x, (list, tuple)) else x
+
+
+def src_run_impl(c, common):
+    """op 'src': the REAL function on the witness (through the drivers)"""
+    args = _detuple(c['args'])
+    if c['function'] == 'field_boundary':
+        args = (list(args[0]),)
+    try:
+        v = DRIVER[c['function']](common.import_lentil(), *args)
+    except Exception as e:      # noqa: BLE001
+        return {'err': type(e).__name__}
+    if v is SKIP:
+        return {'not_reachable': 'these arguments cannot be passed through the running function'}
+    return {'value': common.jsonable(v)}
+
+
+def src_oracle(c, impl, common):
+    args = _detuple(c['args'])
+    if c['function'] == 'field_boundary':
+        args = (list(args[0]),)
+    want = common.jsonable(MIRROR[c['function']](*args))
+    if 'value' not in impl:
+        return (f'{c["function"]}{args}: the running function gives {impl}; the translated source gives '
+                f'{c.get("translated_source_value")}, the proved model {want}')
+    return None if impl['value'] == want else (f'{c["function"]}{args}: the running code gives {impl["value"]}, '
+                                               f'the proved model {want}')
+
+
+def wrap_replay(run_impl, oracle, common):
+    """(run_impl, oracle) that handle the witnesses of the translation layer (op 'src') and delegate the rest"""
+    def run_impl2(c):
+        return src_run_impl(c, common) if c.get('op') == 'src' else run_impl(c)
+
+    def oracle2(c, impl):
+        return src_oracle(c, impl, common) if c.get('op') == 'src' else oracle(c, impl)
+    return run_impl2, oracle2
+
+
+def run_layer(suite, prop_id, tier, rng, common):
+    """regenerate Gen/<..>Src.v of the suite from common.REPO, build its Properties file and decide:
+    refused functions are only reported; a translated function whose equivalence lemma no longer compiles is a
+    violation, with a witness searched on an exhaustive small box.  -> {'report': ..., 'violations': [...]}"""
+    import re
+    su = SUITES[suite]
+    lentil = common.import_lentil()
+    gen_path = os.path.join(common.COQ, su['gen'])
+    res = write(common.REPO, gen_path, lentil=lentil, rng=rng, suite=suite)
+    results = res['results']
+    translated = [n for n, r in results.items() if r['status'] == 'translated']
+    report = {'what': 'source-to-Gallina translation of the integer index arithmetic, proved equal to the model',
+              'translated': translated,
+              'refused': {n: r['reason'] for n, r in results.items() if r['status'] == 'refused'},
+              'functions': {n: f'{r["file"]}:{r["func"]} - {r["doc"]}' for n, r in results.items()},
+              'source_sha256': res['hashes'], 'translated_functions_sha256': res['function_hashes'],
+              'generated_file': su['gen'], 'generated_file_changed': res['changed'],
+              'selfcheck_vs_running_code': {n: results[n].get('selfcheck_compared', 0) for n in translated},
+              'proved': 0}
+    violations = []
+    bad = common.hygiene([su['target']])
+    if bad:
+        violations.append({'case': None, 'impl': None,
+                           'what': f'translation layer: forbidden construct in the Coq files of {su["props"]}: {bad}'})
+        return {'report': report, 'violations': violations}
+    for _ in range(4):
+        rc, out = common.coq_make([su['target']])
+        if open(gen_path).read() == res['text']:
+            break               # (a concurrent check on another tree may have regenerated the file: build again)
+        write(common.REPO, gen_path, lentil=None, rng=rng, suite=suite)
+    src_p = re.sub(r'\(\*.*?\*\)', '', open(os.path.join(common.COQ, su['proofs'])).read(), flags=re.S)
+    lemmas = re.findall(r'^\s*Lemma\s+(src_\w+)', src_p, flags=re.M)
+    if rc == 0:
+        pa = common.print_assumptions(su['props'])
+        report['theorems'] = pa['theorems']
+        report['axioms'] = pa['axioms']
+        ok = (pa['rc'] == 0 and not pa['unknown'] and pa['theorems'] and len(pa['printed']) >= len(pa['theorems']))
+        if not ok:
+            violations.append({'case': None, 'impl': None,
+                               'what': f'translation layer: Properties/{su["props"]}.v does not check cleanly '
+                                       f'(rc={pa["rc"]}, unknown axioms {pa["unknown"]}); no failing input found'})
+        else:
+            pre = f'{prop_id}_src_'
+            report['proved'] = sum(1 for t in pa['theorems'] if lemma_function(t.replace(pre, 'src_'), translated))
+        return {'report': report, 'violations': violations}
+    f, lemma, msg = common.first_error(out)
+    fn = lemma_function(lemma, list(results)) if f == su['proofs'] else None
+    report['broken'] = {'file': f, 'lemma': lemma, 'function': fn, 'error': (msg or '')[:600]}
+    if f == su['proofs'] and lemma in lemmas:
+        report['proved'] = sum(1 for l in lemmas[:lemmas.index(lemma)] if lemma_function(l, translated))
+    found = {}
+    for n in translated:
+        w, desc = find_witness(n, results[n], res['pyfuncs'][n], rng)
+        if w:
+            found[n] = (w, desc)
+    if fn in translated and fn not in found:
+        w, desc = find_witness(fn, results[fn], res['pyfuncs'][fn], rng, exhaustive_budget=6000000, n_random=200000)
+        if w:
+            found[fn] = (w, desc)
+        else:
+            r = results[fn]
+            violations.append({'case': None, 'impl': None,
+                               'what': f'translation layer: lemma {lemma} ({r["file"]}:{r["func"]} = model, for all '
+                                       f'integers) no longer compiles, but no failing input found: the translated term '
+                                       f'agrees with the model mirror on {desc}. Coq: {(msg or "")[:300]}'})
+    for n, (w, desc) in found.items():
+        r = results[n]
+        case = src_case(n, w, common)
+        violations.append({'case': case, 'impl': src_run_impl(case, common),
+                           'what': f'translation layer: the integer arithmetic of {r["file"]}:{r["func"]} ({r["doc"]}) '
+                                   f'differs from the proved model: arguments {common.jsonable(w["args"])} give '
+                                   f'{common.jsonable(w["source"])} by the source, {common.jsonable(w["model"])} by '
+                                   'the model' + (f' (lemma {lemma} no longer compiles)' if n == fn else '')})
+    if not found and fn not in translated:
+        violations.append({'case': None, 'impl': None,
+                           'what': f'translation layer: the build of {su["target"]} fails in {f} ({lemma}); no translated '
+                                   'function differs from its model mirror on the searched boxes; no failing input '
+                                   f'found. Coq: {(msg or "")[:300]}'})
+    report['witnesses'] = {n: common.jsonable(w) for n, (w, _) in found.items()}
+    report['witness_replays'] = [common.write_replay(prop_id, {
+        'property': prop_id, 'kind': 'failing input (translation layer)', 'case': common.jsonable(v['case']),
+        'impl_result': common.jsonable(v['impl']), 'what': v['what'], 'how_to_replay': './check replay <this file>'})
+        for v in violations if v.get('case')]
+    return {'report': report, 'violations': violations}
+
+
 # ====================================================================== driver
 def _parse(repo, rel, cache):
     if rel not in cache:
@@ -2023,18 +3181,17 @@ def _fallback_inputs(spec):
     inputs = []
     for p, kind in spec['params'].items():
         _make_input(kind, p, namer, inputs)
-    for key, (anm, kind) in spec.get('calls', {}).items():
-        _make_input(kind, anm, namer, inputs)
+    _extra_inputs(spec, namer, inputs)
     return inputs
 
 
 def _compile_py(py):
-    ns = {'_reduce': functools.reduce, 'max': max, 'min': min}
+    ns = {'_reduce': functools.reduce, 'max': max, 'min': min, '_quot': _quot}
     exec(compile(py, '<gen_src translated term>', 'exec'), ns)     # our own generated text
     return ns
 
 
-def translate_all(repo, lentil=None, rng=None):
+def translate_all(repo, lentil=None, rng=None, suite='C06'):
     """-> dict(text=coq file text, results={name: {...}}, hashes={file: sha256}, pyfuncs={name: callable}).
     With `lentil` (the imported package of the same tree) every translated term is first compared with the
     RUNNING function on sampled arguments; a disagreement means the translator (or the instance the spec
@@ -2042,7 +3199,14 @@ def translate_all(repo, lentil=None, rng=None):
     import random
     rng = rng or random.Random(0)
     cache, results, chunks, hashes, pyfuncs = {}, {}, [], {}, {}
-    for spec in SPECS:
+    su = SUITES[suite]
+    specs = su['specs']
+
+    def loader(rel):
+        h, fdefs = _parse(repo, rel, cache)
+        hashes[rel] = h
+        return fdefs
+    for spec in specs:
         name = spec['name']
         try:
             try:
@@ -2050,7 +3214,7 @@ def translate_all(repo, lentil=None, rng=None):
             except (OSError, SyntaxError, UnicodeDecodeError) as e:
                 raise TranslationRefused(name, f'cannot read/parse {spec["file"]}: {e}')
             hashes[spec['file']] = h
-            tr = translate_one(spec, fdefs)
+            tr = translate_one(spec, fdefs, loader)
             fb = _fallback_inputs(spec)
             if [(i['name'], i['type']) for i in fb] != [(i['name'], i['type']) for i in tr['inputs']]:
                 raise TranslationRefused(name, 'internal: binder names differ from the declared ones')
@@ -2080,29 +3244,35 @@ def translate_all(repo, lentil=None, rng=None):
                           'function as refused. *)\n'
                           f'{helpers}Definition src_{name} {g_binders(inputs)} : {coq_type(spec["rtype"])} :=\n'
                           f'  {spec["fallback"]}.')
-    head = ['(* GENERATED by harness/gen_src.py from the lentil source files on every `./check C06` - do not edit.',
+    head = [f'(* GENERATED by harness/gen_src.py from the lentil source files on every `./check {suite}` - do not edit.',
             '   Each src_<f> is the translation of the integer arithmetic of one whitelisted function (see the',
             '   docstring of harness/gen_src.py for the accepted Python and for what an observation entry is).',
             '   Source: sha256 of the parsed definitions (ast.dump) of the whitelisted functions of each file - it',
-            '   changes exactly when their code changes (the sha256 of the whole files is in evidence/C06.json):']
+            f'   changes exactly when their code changes (the sha256 of the whole files is in evidence/{suite}.json):']
     fhashes = {}
     for f in sorted(hashes):
-        used = {sp['func'] for sp in SPECS if sp['file'] == f} | {x for sp in SPECS if sp['file'] == f
-                                                                  for x in sp.get('inline', ())}
+        used = {sp['func'] for sp in specs if sp['file'] == f} | {x for sp in specs if sp['file'] == f
+                                                                  for x in sp.get('inline', ()) if '.' not in x}
+        for sp in specs:
+            for mp, mf in sp.get('modules', {}).items():
+                if mf == f:
+                    used |= {x[len(mp) + 1:] for x in sp.get('inline', ()) if x.startswith(mp + '.')}
+        if f not in cache:
+            continue
         fhashes[f] = _funcs_hash(cache[f][1], used)
         head.append(f'     {f}  {fhashes[f]}  ({" ".join(sorted(used))})')
     head.append('   translated: ' + ' '.join(n for n, r in results.items() if r['status'] == 'translated'))
     head.append('   refused:    ' + (' '.join(n for n, r in results.items() if r['status'] == 'refused') or '-')
                 + ' *)')
-    head.append('From LV Require Import Model.Extent Model.Field Model.Geometry.')
+    head.append(f'From LV Require Import {su["imports"]}.')
     head.append('')
     text = '\n'.join(head) + '\n' + '\n\n'.join(chunks) + '\n'
     return {'text': text, 'results': results, 'hashes': hashes, 'function_hashes': fhashes, 'pyfuncs': pyfuncs}
 
 
-def write(repo, path, lentil=None, rng=None):
+def write(repo, path, lentil=None, rng=None, suite='C06'):
     """regenerate; the file is rewritten only when its text changes (keeps make quiet)"""
-    res = translate_all(repo, lentil, rng)
+    res = translate_all(repo, lentil, rng, suite)
     old = open(path).read() if os.path.exists(path) else None
     res['changed'] = old != res['text']
     if res['changed']:
@@ -2114,7 +3284,7 @@ def write(repo, path, lentil=None, rng=None):
 
 
 if __name__ == '__main__':
-    r = translate_all(sys.argv[1] if len(sys.argv) > 1 else '/repo')
+    r = translate_all(sys.argv[1] if len(sys.argv) > 1 else '/repo', suite=sys.argv[2] if len(sys.argv) > 2 else 'C06')
     print(r['text'])
     for n, x in r['results'].items():
         if x['status'] == 'refused':
